@@ -92,6 +92,8 @@ pub const CODE_SYSTEM_ERROR: &str = "system-error";
 pub const CODE_CORRUPTION: &str = "corruption";
 /// A manifest string contains a disallowed newline.
 pub const CODE_NEWLINE_DISALLOWED: &str = "newline-disallowed";
+/// A manifest string or info key could not be read back as written.
+pub const CODE_UNREPRESENTABLE: &str = "unrepresentable";
 /// The manifest exists and `fail_if_exists` was specified.
 pub const CODE_MANIFEST_EXISTS: &str = "manifest-exists";
 /// The manifest does not exist and `fail_if_not_exist` was specified.
@@ -118,6 +120,12 @@ fn corruption(what: impl AsRef<str>) -> SError {
 fn newline_disallowed(what: impl AsRef<str>) -> SError {
     error(CODE_NEWLINE_DISALLOWED)
         .with_message("manifest string contains newline")
+        .with_string_field("what", what.as_ref())
+}
+
+fn unrepresentable(what: impl AsRef<str>) -> SError {
+    error(CODE_UNREPRESENTABLE)
+        .with_message("manifest string cannot be read back as written")
         .with_string_field("what", what.as_ref())
 }
 
@@ -536,6 +544,11 @@ impl Edit {
 
     /// Set the info field `c` to `s`.
     pub fn info(&mut self, c: char, s: &str) -> Result<(), SError> {
+        if c == '+' || c == '-' {
+            return Err(unrepresentable(
+                "info keys '+' and '-' would be read back as an add or a remove",
+            ));
+        }
         Self::check_str(&c.to_string())?;
         let s = Self::check_str(s)?;
         self.info.insert(c, s);
@@ -551,6 +564,11 @@ impl Edit {
         if s.chars().any(|c| c == '\n') {
             Err(newline_disallowed(
                 "added strings must not contain newlines",
+            ))
+        } else if !s.is_ascii() || s.ends_with('\r') {
+            // The reader takes ASCII lines and strips a trailing carriage return.
+            Err(unrepresentable(
+                "strings must be ascii and must not end in a carriage return",
             ))
         } else {
             Ok(s.to_owned())
@@ -616,7 +634,7 @@ impl Iterator for ManifestIterator {
             }
             if line == TX_SEPARATOR {
                 return Some(Ok(edit));
-            } else if line.len() > 9 {
+            } else if line.len() >= 9 {
                 let crc32c_expected = match u32::from_str_radix(&line[..8], 16) {
                     Ok(crc32c_expected) => crc32c_expected,
                     Err(err) => {
